@@ -389,7 +389,42 @@ package dig
 //@   ensures[C13:decorator-error-wrapped] found && err != nil ==> v == nil && is(err, errParamSingleFailed)
 //@        && as(err, errParamSingleFailed).Reason == ret(Call_1, 0) && as(err, errParamSingleFailed).Key == k
 
+// ---------------------------------------------------------------------------
+// error chains (C13, C04). The model of package errors over dig's closed world
+// of error types: unwrapOf is what errors.Unwrap returns (the Unwrap method of
+// the seven wrapping types, nil for the three leaf types -- the set of types
+// that have an Unwrap method is pinned by the scan unwrap-method-set, and each
+// Unwrap method is verified below to return the field named here).
+
+//@ ufunc unwrapOf(Any) Any
+//@ axiom[unwrap-errInvalidInput] forall e Any :: { unwrapOf(e) } is(e, errInvalidInput) ==> unwrapOf(e) == as(e, errInvalidInput).Cause
+//@ axiom[unwrap-errProvide] forall e Any :: { unwrapOf(e) } is(e, errProvide) ==> unwrapOf(e) == as(e, errProvide).Reason
+//@ axiom[unwrap-errConstructorFailed] forall e Any :: { unwrapOf(e) } is(e, errConstructorFailed) ==> unwrapOf(e) == as(e, errConstructorFailed).Reason
+//@ axiom[unwrap-errArgumentsFailed] forall e Any :: { unwrapOf(e) } is(e, errArgumentsFailed) ==> unwrapOf(e) == as(e, errArgumentsFailed).Reason
+//@ axiom[unwrap-errMissingDependencies] forall e Any :: { unwrapOf(e) } is(e, errMissingDependencies) ==> unwrapOf(e) == as(e, errMissingDependencies).Reason
+//@ axiom[unwrap-errParamSingleFailed] forall e Any :: { unwrapOf(e) } is(e, errParamSingleFailed) ==> unwrapOf(e) == as(e, errParamSingleFailed).Reason
+//@ axiom[unwrap-errParamGroupFailed] forall e Any :: { unwrapOf(e) } is(e, errParamGroupFailed) ==> unwrapOf(e) == as(e, errParamGroupFailed).Reason
+//@ axiom[unwrap-leaves] forall e Any :: { unwrapOf(e) } e == nil || is(e, PanicError) || is(e, errMissingTypes) || is(e, errCycleDetected) ==> unwrapOf(e) == nil
+
+// the first dig.Error on the Unwrap chain of e (what errors.As(e, *dig.Error) finds), nil if none
+//@ ufunc firstDig(Any) Any
+// (holds by induction on the length of the chain; stated as an axiom because the solvers do no induction)
+//@ axiom[firstDig-is-dig] forall e Any :: { firstDig(e) } firstDig(e) != nil ==> isA(firstDig(e), Error)
+//@ axiom[firstDig-def] forall e Any :: { firstDig(e) } firstDig(e) == (e == nil ? nil : (isA(e, Error) ? e : firstDig(unwrapOf(e))))
+
+// from a dig.Error d downwards: the first error that is not a dig.Error, or
+// the last dig.Error when the chain ends inside dig
+//@ ufunc descend(Any) Any
+//@ axiom[descend-def] forall d Any :: { descend(d) } descend(d) == (unwrapOf(d) == nil ? d : (isA(unwrapOf(d), Error) ? descend(unwrapOf(d)) : unwrapOf(d)))
+
 //@ ufunc chainHasMissingDeps(Any) Bool
+//@ axiom[chainHasMissingDeps-def] forall e Any :: { chainHasMissingDeps(e) } chainHasMissingDeps(e) == (e != nil && (is(e, errMissingDependencies) || chainHasMissingDeps(unwrapOf(e))))
+//@ ufunc chainHasCycle(Any) Bool
+//@ axiom[chainHasCycle-def] forall e Any :: { chainHasCycle(e) } chainHasCycle(e) == (e != nil && (is(e, errCycleDetected) || chainHasCycle(unwrapOf(e))))
+
+//@ func errors.Unwrap(err) (r)
+//@   trusted
+//@   ensures r == unwrapOf(err)
 
 //@ func errors.As(err, target) (ok)
 //@   trusted
@@ -400,8 +435,56 @@ package dig
 //@        && unchanged(cell(Error), errCycleDetected.Path, errCycleDetected.scope)
 //@   ensures is(target, ptr(Error)) ==> onlyAt(as(target, ptr(Error)), cell(Error))
 //@        && unchanged(errMissingDependencies.Func, errMissingDependencies.Reason, errCycleDetected.Path, errCycleDetected.scope)
+//@        && ok == (firstDig(err) != nil) && (ok ==> deref(as(target, ptr(Error))) == firstDig(err))
+//@        && (!ok ==> deref(as(target, ptr(Error))) == old(deref(as(target, ptr(Error)))))
 //@   ensures is(target, ptr(errCycleDetected)) ==> onlyAt(as(target, ptr(errCycleDetected)), errCycleDetected.Path, errCycleDetected.scope)
 //@        && unchanged(errMissingDependencies.Func, errMissingDependencies.Reason, cell(Error))
+//@        && ok == chainHasCycle(err)
+
+//@ func RootCause(err) (r)
+//@   allocates
+//@   ensures[C13:root-cause-of-a-non-dig-chain-is-the-error-itself] firstDig(err) == nil ==> r == err
+//@   ensures[C13:root-cause-stops-at-the-first-error-that-is-not-digs] firstDig(err) != nil ==> r == descend(firstDig(err))
+//@   ensures[C13:root-cause-runs-nothing] $nrun == old($nrun) && $ncb == old($ncb)
+//@   loop for #1: invariant[C13:descending-through-dig-errors-only] de != nil && isA(de, Error) && descend(de) == descend(firstDig(err)) && firstDig(err) != nil
+
+//@ func IsCycleDetected(err) (r)
+//@   allocates
+//@   ensures[C13:cycle-predicate-is-the-chain-test,C05:cycle-predicate-is-the-chain-test] r == chainHasCycle(err)
+
+//@ func (e errInvalidInput) Unwrap() (r)
+//@   allocates
+//@   ensures[C13:unwrap-returns-the-cause] r == e.Cause
+//@ func (e errProvide) Unwrap() (r)
+//@   allocates
+//@   ensures[C13:unwrap-returns-the-reason] r == e.Reason
+//@ func (e errConstructorFailed) Unwrap() (r)
+//@   allocates
+//@   ensures[C13:unwrap-returns-the-reason] r == e.Reason
+//@ func (e errArgumentsFailed) Unwrap() (r)
+//@   allocates
+//@   ensures[C13:unwrap-returns-the-reason] r == e.Reason
+//@ func (e errMissingDependencies) Unwrap() (r)
+//@   allocates
+//@   ensures[C13:unwrap-returns-the-reason] r == e.Reason
+//@ func (e errParamSingleFailed) Unwrap() (r)
+//@   allocates
+//@   ensures[C13:unwrap-returns-the-reason] r == e.Reason
+//@ func (e errParamGroupFailed) Unwrap() (r)
+//@   allocates
+//@   ensures[C13:unwrap-returns-the-reason] r == e.Reason
+
+// consequences of the definitions that the statement of C13 names
+//@ lemma[C13:constructor-error-is-recovered-by-identity] forall e Any :: is(e, errConstructorFailed) && as(e, errConstructorFailed).Reason != nil && !isA(as(e, errConstructorFailed).Reason, Error)
+//@        ==> firstDig(e) == e && descend(e) == as(e, errConstructorFailed).Reason
+//@ lemma[C13:wrapped-constructor-error-is-recovered-by-identity] forall a Any, e Any :: is(a, errArgumentsFailed) && as(a, errArgumentsFailed).Reason == e && is(e, errParamSingleFailed)
+//@        && is(as(e, errParamSingleFailed).Reason, errConstructorFailed) && as(as(e, errParamSingleFailed).Reason, errConstructorFailed).Reason != nil
+//@        && !isA(as(as(e, errParamSingleFailed).Reason, errConstructorFailed).Reason, Error)
+//@        ==> descend(a) == as(as(e, errParamSingleFailed).Reason, errConstructorFailed).Reason
+//@ lemma[C13:panic-is-a-root-cause] forall e Any, p Any :: is(e, errArgumentsFailed) && as(e, errArgumentsFailed).Reason == p && is(p, PanicError) ==> descend(e) == p
+//@ lemma[C13:missing-type-stays-a-dig-error] forall e Any :: is(e, errMissingDependencies) && is(as(e, errMissingDependencies).Reason, errMissingTypes) ==> isA(descend(e), Error)
+//@ lemma[C13:cycle-error-is-detected-through-invalid-input] forall e Any :: is(e, errInvalidInput) && is(as(e, errInvalidInput).Cause, errCycleDetected) ==> chainHasCycle(e)
+//@ lemma[C13:missing-type-is-not-a-cycle] forall e Any :: is(e, errMissingDependencies) && is(as(e, errMissingDependencies).Reason, errMissingTypes) ==> !chainHasCycle(e)
 
 //@ func (ps paramSingle) Build(c) (v, err)
 //@   ensures[C03:knot-mono] knotMono()
